@@ -221,6 +221,212 @@ Definition lockup_decode (b : bytes) : lockup :=
            (if Nat.eqb (length b) 58 then Some (skipn 38 b) else None).
 
 (* ------------------------------------------------------------------ *)
+(* 3b. Transaction (core/types/transaction.go ProtoEncode / ProtoDecode), all three types,
+   field by field. The Go code fills a ProtoTransaction struct (pointer / slice fields: nil =
+   absent) which proto.Marshal emits in field-number order: [build] is that step. *)
+
+Fixpoint build (l : list (N * option fval)) : msg :=
+  match l with
+  | [] => []
+  | (k, Some v) :: t => (k, v) :: build t
+  | (_, None) :: t => build t
+  end.
+
+(* protoTx.GetX(): the zero value when the field is absent *)
+Definition get_bytes (m : msg) (k : N) : bytes := match get_field m k with Some v => as_bytes v | None => [] end.
+Definition get_int (m : msg) (k : N) : N := match get_field m k with Some v => as_int v | None => 0 end.
+Definition get_msg (m : msg) (k : N) : msg := match get_field m k with Some v => as_msg v | None => [] end.
+Definition has (m : msg) (k : N) : bool := match get_field m k with Some _ => true | None => false end.
+
+(* common.BytesToAddress(b, location).Bytes(): the 20 stored bytes (setBytes crops from the left / left-pads);
+   the internal/external classification depends on the node location and is not part of the encoding *)
+Definition addr_len : nat := 20.
+Definition addr_of_bytes (b : bytes) : bytes := set_bytes addr_len b.
+
+(* AccessList.ProtoEncode / ProtoDecode *)
+Record acctuple := mkAT { at_addr : bytes; at_keys : list bytes }.
+Definition at_encode (t : acctuple) : msg :=
+  match at_addr t with [] => [] | a => [(1, FBytes a)] end        (* `bytes address = 1`: implicit presence *)
+  ++ map (fun h => (2, FMsg (hash_msg h))) (at_keys t).
+Definition al_encode (al : list acctuple) : msg := map (fun t => (1, FMsg (at_encode t))) al.
+Definition at_decode (m : msg) : acctuple :=
+  mkAT (addr_of_bytes (get_bytes m 1)) (map (fun v => hash_of_msg (as_msg v)) (get_all m 2)).
+Definition al_decode (m : msg) : list acctuple := map (fun v => at_decode (as_msg v)) (get_all m 1).
+
+(* TxIn: previous outpoint + public key; the key is compressed on the wire (33 bytes) and uncompressed in
+   memory (65 bytes). Compression / decompression are curve operations: parameters of the model
+   (compressPubKeyIfNeeded / decompressPubKeyIfNeeded: a key that already has the target length passes unchecked). *)
+Record txin := mkTxIn { in_prev : outpoint; in_pub : bytes }.
+
+Section TxModel.
+  Variable compress65 : bytes -> option bytes.     (* crypto.UnmarshalPubkey + CompressPubkey *)
+  Variable decompress33 : bytes -> option bytes.   (* crypto.DecompressPubkey + FromECDSAPub *)
+
+  Definition pub_to_wire (p : bytes) : option bytes :=
+    if Nat.eqb (length p) 65 then compress65 p else if Nat.eqb (length p) 33 then Some p else None.
+  Definition pub_of_wire (p : bytes) : option bytes :=
+    if Nat.eqb (length p) 33 then decompress33 p else if Nat.eqb (length p) 65 then Some p else None.
+
+  Definition txin_encode (i : txin) : option msg :=
+    match pub_to_wire (in_pub i) with
+    | Some w => Some [(1, FMsg (outpoint_encode (in_prev i))); (2, FBytes w)]
+    | None => None
+    end.
+  (* TxIn.ProtoDecode: outpoint first (missing outpoint / hash / index -> error), then the key *)
+  Definition txin_decode (m : msg) : dres txin :=
+    match get_field m 1 with
+    | None => DErr
+    | Some o =>
+        match outpoint_decode (as_msg o) with
+        | DErr => DErr
+        | DOk op => match pub_of_wire (get_bytes m 2) with Some p => DOk (mkTxIn op p) | None => DErr end
+        end
+    end.
+
+  Fixpoint all_some {A} (l : list (option A)) : option (list A) :=
+    match l with
+    | [] => Some []
+    | None :: _ => None
+    | Some x :: t => match all_some t with Some r => Some (x :: r) | None => None end
+    end.
+  Fixpoint all_ok {A} (l : list (dres A)) : dres (list A) :=
+    match l with
+    | [] => DOk []
+    | DErr :: _ => DErr
+    | DOk x :: t => match all_ok t with DOk r => DOk (x :: r) | DErr => DErr end
+    end.
+
+  (* the three optional proof-of-work fields, independent of each other *)
+  Record workf := mkWork { w_parent : option bytes; w_mix : option bytes; w_nonce : option N }.
+  Definition work_entries (w : workf) : list (N * option fval) :=
+    [(19, option_map (fun h => FMsg (hash_msg h)) (w_parent w));
+     (20, option_map (fun h => FMsg (hash_msg h)) (w_mix w));
+     (21, option_map FInt (w_nonce w))].
+  (* common.BytesToHash(protoTx.ParentHash.Value); BlockNonce(uint64ToByteArr(work nonce)) *)
+  Definition work_decode (m : msg) : workf :=
+    mkWork (option_map (fun v => hash_of_msg (as_msg v)) (get_field m 19))
+           (option_map (fun v => hash_of_msg (as_msg v)) (get_field m 20))
+           (option_map as_int (get_field m 21)).
+
+  Record quaitx := mkQuai {
+    q_to : option bytes; q_nonce : N; q_value : N; q_gas : N; q_data : bytes; q_chain : N; q_price : N;
+    q_al : list acctuple; q_v : N; q_r : N; q_s : N; q_work : workf }.
+  Record exttx := mkExt {
+    e_to : bytes; e_value : N; e_gas : N; e_data : bytes; e_al : list acctuple; e_orig : bytes;
+    e_index : N (* uint16 *); e_sender : bytes; e_type : N }.
+  Record qitx := mkQi {
+    i_chain : N; i_ins : list txin; i_outs : list txout; i_sig : bytes (* Signature.Serialize(): r || s *);
+    i_data : bytes; i_work : workf }.
+  Inductive tx := TQuai (q : quaitx) | TExt (e : exttx) | TQi (i : qitx).
+
+  Definition QuaiTxType : N := 0.
+  Definition ExternalTxType : N := 1.
+  Definition QiTxType : N := 2.
+
+  (* Transaction.ProtoEncode. Data: nil is written as an empty, present field. Big integers: x.Bytes(). *)
+  Definition tx_encode (t : tx) : option msg :=
+    match t with
+    | TQuai q =>
+        Some (build ([(1, Some (FInt QuaiTxType));
+                      (2, option_map FBytes (q_to q));
+                      (3, Some (FInt (q_nonce q)));
+                      (4, Some (FBytes (big_bytes (q_value q))));
+                      (5, Some (FInt (q_gas q)));
+                      (6, Some (FBytes (q_data q)));
+                      (7, Some (FBytes (big_bytes (q_chain q))));
+                      (8, Some (FBytes (big_bytes (q_price q))));
+                      (9, Some (FMsg (al_encode (q_al q))));
+                      (10, Some (FBytes (big_bytes (q_v q))));
+                      (11, Some (FBytes (big_bytes (q_r q))));
+                      (12, Some (FBytes (big_bytes (q_s q))))] ++ work_entries (q_work q)))
+    | TExt e =>
+        Some (build [(1, Some (FInt ExternalTxType));
+                     (2, Some (FBytes (e_to e)));
+                     (4, Some (FBytes (big_bytes (e_value e))));
+                     (5, Some (FInt (e_gas e)));
+                     (6, Some (FBytes (e_data e)));
+                     (9, Some (FMsg (al_encode (e_al e))));
+                     (13, Some (FMsg (hash_msg (e_orig e))));
+                     (14, Some (FInt (e_index e mod 65536)));
+                     (18, Some (FBytes (e_sender e)));
+                     (22, Some (FInt (e_type e)))])
+    | TQi i =>
+        match all_some (map txin_encode (i_ins i)) with
+        | None => None
+        | Some ins =>
+            Some (build ([(1, Some (FInt QiTxType));
+                          (6, Some (FBytes (i_data i)));
+                          (7, Some (FBytes (big_bytes (i_chain i))));
+                          (15, Some (FMsg (map (fun m => (1, FMsg m)) ins)));
+                          (16, Some (FMsg (map (fun o => (1, FMsg (txout_encode o))) (i_outs i))));
+                          (17, Some (FBytes (i_sig i)))] ++ work_entries (i_work i)))
+        end
+    end.
+
+  (* crypto.ValidateSignatureValues(byte(v.Uint64()), r, s) *)
+  Definition secp256k1N : N := 115792089237316195423570985008687907852837564279074904382605163141518161494337.
+  Definition secp256k1halfN : N := secp256k1N / 2.
+  Definition secp256k1P : N := 115792089237316195423570985008687907853269984665640564039457584007908834671663.
+  Definition ecdsa_sane (v r s : N) : bool :=
+    negb (r <? 1) && negb (s <? 1) && negb (secp256k1halfN <? s) && (r <? secp256k1N) && (s <? secp256k1N)
+    && ((v mod 256 =? 0) || (v mod 256 =? 1)).
+  (* schnorr.ParseSignature: 64 bytes, r < field prime, s < group order *)
+  Definition schnorr_ok (b : bytes) : bool :=
+    Nat.eqb (length b) 64 && (be_dec (firstn 32 b) <? secp256k1P) && (be_dec (skipn 32 b) <? secp256k1N).
+
+  (* Transaction.ProtoDecode, in the order of the Go checks *)
+  Definition tx_decode (m : msg) : dres tx :=
+    if negb (has m 1) then DErr
+    else
+      let ty := get_int m 1 in
+      if ty =? QuaiTxType then
+        if negb (has m 3) then DErr else if negb (has m 5) then DErr else if negb (has m 9) then DErr
+        else if negb (has m 4) then DErr else if negb (has m 8) then DErr else if negb (has m 6) then DErr
+        else if negb (has m 7) then DErr
+        else if negb (has m 10) then DErr else if negb (has m 11) then DErr else if negb (has m 12) then DErr
+        else
+          let v := big_of_bytes (get_bytes m 10) in
+          let r := big_of_bytes (get_bytes m 11) in
+          let s := big_of_bytes (get_bytes m 12) in
+          if (negb (v =? 0) || negb (r =? 0) || negb (s =? 0)) && negb (ecdsa_sane v r s) then DErr
+          else DOk (TQuai (mkQuai (option_map (fun x => addr_of_bytes (as_bytes x)) (get_field m 2))
+                                  (get_int m 3) (big_of_bytes (get_bytes m 4)) (get_int m 5) (get_bytes m 6)
+                                  (big_of_bytes (get_bytes m 7)) (big_of_bytes (get_bytes m 8))
+                                  (al_decode (get_msg m 9)) v r s (work_decode m)))
+      else if ty =? ExternalTxType then
+        if negb (has m 5) then DErr else if negb (has m 9) then DErr else if negb (has m 4) then DErr
+        else if negb (has m 6) then DErr else if negb (has m 2) then DErr else if negb (has m 13) then DErr
+        else if negb (has m 14) then DErr else if negb (has m 22) then DErr
+        else DOk (TExt (mkExt (addr_of_bytes (get_bytes m 2)) (big_of_bytes (get_bytes m 4)) (get_int m 5)
+                               (get_bytes m 6) (al_decode (get_msg m 9)) (hash_of_msg (get_msg m 13))
+                               (get_int m 14 mod 65536) (addr_of_bytes (get_bytes m 18)) (get_int m 22)))
+      else if ty =? QiTxType then
+        if negb (has m 15) then DErr else if negb (has m 16) then DErr else if negb (has m 17) then DErr
+        else if negb (has m 7) then DErr else if negb (has m 6) then DErr
+        else
+          match all_ok (map (fun v => txin_decode (as_msg v)) (get_all (get_msg m 15) 1)) with
+          | DErr => DErr
+          | DOk [] => DErr                                   (* "QiTx must have at least one input" *)
+          | DOk ins =>
+              match all_ok (map (fun v => txout_decode (as_msg v)) (get_all (get_msg m 16) 1)) with
+              | DErr => DErr
+              | DOk outs =>
+                  if negb (schnorr_ok (get_bytes m 17)) then DErr
+                  else DOk (TQi (mkQi (big_of_bytes (get_bytes m 7)) ins outs (get_bytes m 17) (get_bytes m 6)
+                                      (work_decode m)))
+              end
+          end
+      else DErr.
+End TxModel.
+
+(* the curve operations as observed on the real code: association lists recorded by the harness *)
+Fixpoint assoc_bytes (tbl : list (bytes * option bytes)) (k : bytes) : option bytes :=
+  match tbl with
+  | [] => None
+  | (a, v) :: t => if keqb a k then v else assoc_bytes t k
+  end.
+
+(* ------------------------------------------------------------------ *)
 (* 4. cases                                                            *)
 
 Definition bytes_eqb := keqb.
@@ -241,6 +447,27 @@ Definition hi_eqb (a b : bytes * N) : bool := keqb (fst a) (fst b) && (snd a =? 
 Definition lockup_eqb (a b : lockup) : bool :=
   (lk_amount a =? lk_amount b) && (lk_height a =? lk_height b) && (lk_elements a =? lk_elements b)
   && obytes_eqb (lk_delegate a) (lk_delegate b).
+
+Definition at_eqb (a b : acctuple) : bool := keqb (at_addr a) (at_addr b) && list_eqb keqb (at_keys a) (at_keys b).
+Definition work_eqb (a b : workf) : bool :=
+  obytes_eqb (w_parent a) (w_parent b) && obytes_eqb (w_mix a) (w_mix b) && oN_eqb (w_nonce a) (w_nonce b).
+Definition txin_eqb (a b : txin) : bool := outpoint_eqb (in_prev a) (in_prev b) && keqb (in_pub a) (in_pub b).
+Definition tx_eqb (a b : tx) : bool :=
+  match a, b with
+  | TQuai x, TQuai y =>
+      obytes_eqb (q_to x) (q_to y) && (q_nonce x =? q_nonce y) && (q_value x =? q_value y) && (q_gas x =? q_gas y)
+      && keqb (q_data x) (q_data y) && (q_chain x =? q_chain y) && (q_price x =? q_price y)
+      && list_eqb at_eqb (q_al x) (q_al y) && (q_v x =? q_v y) && (q_r x =? q_r y) && (q_s x =? q_s y)
+      && work_eqb (q_work x) (q_work y)
+  | TExt x, TExt y =>
+      keqb (e_to x) (e_to y) && (e_value x =? e_value y) && (e_gas x =? e_gas y) && keqb (e_data x) (e_data y)
+      && list_eqb at_eqb (e_al x) (e_al y) && keqb (e_orig x) (e_orig y) && (e_index x =? e_index y)
+      && keqb (e_sender x) (e_sender y) && (e_type x =? e_type y)
+  | TQi x, TQi y =>
+      (i_chain x =? i_chain y) && list_eqb txin_eqb (i_ins x) (i_ins y) && list_eqb txout_eqb (i_outs x) (i_outs y)
+      && keqb (i_sig x) (i_sig y) && keqb (i_data x) (i_data y) && work_eqb (i_work x) (i_work y)
+  | _, _ => false
+  end.
 
 Definition dres_eqb {A} (eqb : A -> A -> bool) (a b : dres A) : bool :=
   match a, b with DOk x, DOk y => eqb x y | DErr, DErr => true | _, _ => false end.
@@ -272,14 +499,20 @@ Inductive case :=
 | CUtxoKey (id : N) (h : bytes) (i : N) (key : bytes) (rev : dres (bytes * N))
 | CUtxoKeyDec (id : N) (key : bytes) (rev : dres (bytes * N))
 (* rawdb: lockup record written by WriteCoinbaseLockupToSlice / WriteCoinbaseLockup, and what ReadCoinbaseLockup returns *)
-| CLockup (id : N) (l : lockup) (rec : dres bytes) (back : lockup).
+| CLockup (id : N) (l : lockup) (rec : dres bytes) (back : lockup)
+(* Transaction: the Go object (projected through its getters), proto.Marshal(tx.ProtoEncode()) (DErr: ProtoEncode
+   returned an error), what ProtoDecode(Unmarshal(bytes)) gives; ctbl / dtbl: the public-key compressions /
+   decompressions the real code computed on the way *)
+| CTx (id : N) (ctbl dtbl : list (bytes * option bytes)) (x : tx) (b : dres bytes) (back : dres tx)
+(* decoding side only: an arbitrary ProtoTransaction (absent fields, odd widths, bad signatures) *)
+| CTxDec (id : N) (dtbl : list (bytes * option bytes)) (b : bytes) (back : dres tx).
 
 Definition case_id (c : case) : N :=
   match c with
   | CProto i _ _ _ | CProtoDec i _ _ _ | CRlp i _ _ | CRlpDec i _ _
   | CTxOut i _ _ _ | CUtxo i _ _ _ | COutPoint i _ _ _ | COpd i _ _ _ | CTermini i _ _ _
   | CTxOutDec i _ _ | CUtxoDec i _ _ | COutPointDec i _ _ | COpdDec i _ _
-  | CUtxoKey i _ _ _ _ | CUtxoKeyDec i _ _ | CLockup i _ _ _ => i
+  | CUtxoKey i _ _ _ _ | CUtxoKeyDec i _ _ | CLockup i _ _ _ | CTx i _ _ _ _ _ | CTxDec i _ _ _ => i
   end.
 
 Definition oitem_eqb (a b : option item) : bool :=
@@ -311,6 +544,16 @@ Definition case_ok (c : case) : bool :=
   | CLockup _ l rec back =>
       dres_eqb keqb (lockup_encode l) rec
       && match rec with DOk b => lockup_eqb (lockup_decode b) back | DErr => true end
+  | CTx _ ctbl dtbl x b back =>
+      match tx_encode (assoc_bytes ctbl) x, b with
+      | Some m, DOk bb =>
+          keqb (encode m) bb
+          && dres_eqb tx_eqb (obj_decode id_block_ProtoTransaction (tx_decode (assoc_bytes dtbl)) bb) back
+      | None, DErr => true
+      | _, _ => false
+      end
+  | CTxDec _ dtbl b back =>
+      dres_eqb tx_eqb (obj_decode id_block_ProtoTransaction (tx_decode (assoc_bytes dtbl)) b) back
   end.
 
 Definition mismatches (cs : list case) : list N :=
